@@ -14,7 +14,7 @@ NAME = "imusim"
 SIM_UNIT = "IMU frames"
 BUDGET = {"quick": {"runs": 2200, "wall": 80}, "thorough": {"runs": 60000, "wall": 1200}}
 SHRINK_LISTS = ("ops",)
-PROBES = {"C16": ["explicit-init-state", "reset=True-repeat", "chunk-of-one", "all-singletons", "F-not-pow2-minus-1", "rank-FH", "rank-H", "known-rot",
+PROBES = {"C16": ["layout:strided", "layout:expanded-dt", "explicit-init-state", "reset=True-repeat", "chunk-of-one", "all-singletons", "F-not-pow2-minus-1", "rank-FH", "rank-H", "known-rot",
                   "integrated-rot+gravity", "zero-gravity", "float32", "batch>1", "nonidentity-init"]}
 
 # tolerance constants: calibrated on the repaired tree, worst observed ratio noted in DESIGN.md
@@ -33,7 +33,8 @@ def generate(seed, tier, prop="C16"):
            "dt_mode": r.choice(["const", "rand", "rand"]), "dt": rng.loguniform(r, 1e-4, 1.0),
            "gyro_scale": r.choice([0.0, 0.05, 0.5, 3.0]), "acc_scale": r.choice([0.0, 1.0, 10.0]),
            "known_rot": r.random() < 0.35, "gravity": r.choice([9.81007, 9.81007, 0.0, 1.62]),
-           "init": r.random() < 0.6, "init_batched": r.random() < 0.4, "explicit": r.random() < 0.4}
+           "init": r.random() < 0.6, "init_batched": r.random() < 0.4, "explicit": r.random() < 0.4,
+           "layout": r.choice(["plain", "plain", "strided", "expanded-dt"])}
     ro = rng.stream(seed, "ops")
     style = ro.choice(["few", "few", "many", "singletons", "head1", "tail1"])
     cuts = set()
@@ -76,8 +77,8 @@ def simplify(plan):
     if c["B"] > 1:
         cands.append({**plan, "config": dict(c, B=1)})
     for k, v in (("dtype", "f64"), ("known_rot", False), ("gravity", 0.0), ("init", False), ("dt_mode", "const"),
-                 ("gyro_scale", 0.0), ("acc_scale", 0.0)):
-        if c[k] != v:
+                 ("gyro_scale", 0.0), ("acc_scale", 0.0), ("layout", "plain"), ("explicit", False)):
+        if c.get(k) != v:
             cands.append({**plan, "config": dict(c, **{k: v})})
     return cands
 
@@ -144,6 +145,17 @@ def execute(plan, prop, out, tr):
         dt = torch.exp(rng.rand(s, ("dt",), (B, F, 1), None, np.log(1e-4), 0.0)).to(dtype)
     gyro = rng.randn(s, ("gyro",), (B, F, 3), dtype, c["gyro_scale"])
     acc = rng.randn(s, ("acc",), (B, F, 3), dtype, c["acc_scale"])
+    lay = c.get("layout", "plain")
+    if lay == "strided":
+        # the same samples living in every second slot of larger buffers (non-contiguous views)
+        def strided(t):
+            base = torch.zeros(t.shape[:-1] + (2 * t.shape[-1],), dtype=t.dtype); base[..., ::2] = t
+            return base[..., ::2]
+        dt, gyro, acc = strided(dt), strided(gyro), strided(acc)
+        out.probe("layout:strided")
+    elif lay == "expanded-dt" and c["dt_mode"] == "const":
+        dt = dt[:1, :1, :].expand(B, F, 1)          # one stored value, stride 0 over batch and frames
+        out.probe("layout:expanded-dt")
     rot_known = None
     if c["known_rot"]:
         rot_known = pp.so3(rng.randn(s, ("rot",), (B, F, 3), dtype)).Exp()
